@@ -239,6 +239,28 @@ def slow_source_jobs(rng, tier, mk_terms, add):
         add(norm(p), "free", sleep_us=rng.choice([100, 300]) if src in ("iter", "iterx") else 0, hold_workers=hold)
 
 
+def hold_jobs(rng, tier, mk_terms, add):
+    """Scheduled runs in which the worker that reaches source position `hold_pos` parks INSIDE the
+    by-value iterator's next() - it holds the turnstile - and is scheduled last: every other worker
+    reserves its chunk and spins at the gate (the scheduler sets it aside as blocked), the spawning
+    thread runs to its join, and only then the source is released. This is the 'reserved but not yet
+    pulled' family of states of MC_Source, produced on purpose in the real library."""
+    for i in range(24 if tier == "quick" else 240):
+        src = rng.choice(("iter", "iter", "iterx"))
+        sh = rng.choice(["", "m", "f", "o", "l", "mf", "of"])
+        n_ = rng.choice([6, 9, 12, 16])
+        if i % 2 == 0:
+            k = rng.choice([2, 3, 4])
+            c_, nt_ = -(-n_ // k), rng.choice([k + 1, k + 2, 6])
+            cs_ = rng.choice([("cs", c_), ("csmin", c_)])
+        else:
+            c_ = rng.choice([1, 2, 3])
+            nt_, cs_ = rng.choice([3, 4, 6]), rng.choice([("cs", c_), ("csmin", c_), None])
+        p = gen_prog(rng, src=src, shape=sh, n=n_, nt=nt_, cs=cs_)
+        p["term"] = mk_terms[i % len(mk_terms)](rng, src, shape_of(p))
+        add(norm(p), "hold", hold_pos=rng.choice([0, 0, 1, c_ - 1, c_, c_ + 1, n_ - 1]))
+
+
 def big_jobs(rng, tier, mk_terms, add):
     """Programs over 7*10^4..3*10^5 elements (digests instead of sequences): thresholds such as
     2^16 / 2^17 elements and the growth of SplitVec fragments are only crossed here. Systematic
@@ -352,6 +374,7 @@ def jobs_for(prop, tier, seed):
         jobs.append(mk_job(len(jobs) + 1, p, mode or mode_mix(rng), rng, **kw))
 
     if prop == "C01":
+        hold_jobs(rng, tier, [lambda r, s_, sh: collect_term(r, s_, sh)], add)
         slow_source_jobs(rng, tier, [lambda r, s_, sh: collect_term(r, s_, sh)], add)
         lag_jobs(rng, tier, [lambda r, s_, sh: collect_term(r, s_, sh)], add)
         single_worker_jobs(rng, tier, add)
@@ -362,6 +385,7 @@ def jobs_for(prop, tier, seed):
         for _ in range(n):
             add(with_term(rng, lambda r, s, sh: collect_term(r, s, sh)))
     elif prop == "C02":
+        hold_jobs(rng, tier, [find_term], add)
         big_find_jobs(rng, tier, add)
         slow_source_jobs(rng, tier, [find_term], add)
         lag_jobs(rng, tier, [find_term], add)
@@ -369,6 +393,7 @@ def jobs_for(prop, tier, seed):
         for _ in range(n):
             add(with_term(rng, find_term, sizes=(0, 1, 2, 5, 8, 13, 24, 40, 64)))
     elif prop == "C03":
+        hold_jobs(rng, tier, [lambda r, s_, sh: {"k": "reduce", "op": r.choice(["add", "xor", "min", "max"])}, reduce_term], add)
         slow_source_jobs(rng, tier, [lambda r, s_, sh: {"k": "reduce", "op": r.choice(["add", "xor", "min", "max"])}, reduce_term], add)
         lag_jobs(rng, tier, [lambda r, s_, sh: {"k": "reduce", "op": r.choice(["add", "xor", "min", "max"])}], add)
         matrix(rng, tier, [reduce_term, lambda r, s_, sh: {"k": "reduce", "op": r.choice(["add", "xor", "min", "max"])}], add, reps=2)
@@ -376,6 +401,7 @@ def jobs_for(prop, tier, seed):
         for _ in range(n):
             add(with_term(rng, reduce_term))
     elif prop == "C04":
+        hold_jobs(rng, tier, [lambda r, s_, sh: {"k": "count"}, lambda r, s_, sh: {"k": "for_each"}], add)
         slow_source_jobs(rng, tier, [lambda r, s_, sh: {"k": "count"}, lambda r, s_, sh: {"k": "for_each"}], add)
         lag_jobs(rng, tier, [lambda r, s_, sh: {"k": "count"}, lambda r, s_, sh: {"k": "for_each"}], add)
         matrix(rng, tier, [lambda r, s_, sh: {"k": "count"}, lambda r, s_, sh: {"k": "for_each"}], add, reps=2)
@@ -383,6 +409,7 @@ def jobs_for(prop, tier, seed):
         for _ in range(n):
             add(with_term(rng, lambda r, s, sh: {"k": r.choice(["count", "for_each"])}))
     elif prop == "C05":
+        hold_jobs(rng, tier, [lambda r, s_, sh: any_term(r, s_, sh)], add)
         slow_source_jobs(rng, tier, [lambda r, s_, sh: any_term(r, s_, sh)], add)
         lag_jobs(rng, tier, [lambda r, s_, sh: any_term(r, s_, sh)], add)
         matrix(rng, tier, [lambda r, s_, sh: collect_term(r, s_, sh), lambda r, s_, sh: {"k": "collect_x"},
@@ -414,6 +441,7 @@ def jobs_for(prop, tier, seed):
             p["term"] = t
             add(norm(p))
     elif prop == "C07":
+        hold_jobs(rng, tier, [lambda r, s_, sh: {"k": "collect_x"}], add)
         slow_source_jobs(rng, tier, [lambda r, s_, sh: {"k": "collect_x"}], add)
         lag_jobs(rng, tier, [lambda r, s_, sh: {"k": "collect_x"}], add)
         matrix(rng, tier, [lambda r, s_, sh: {"k": "collect_x"}], add)
@@ -444,6 +472,7 @@ def jobs_for(prop, tier, seed):
             p = with_term(rng, lambda r, s, sh: any_term(r, s, sh, ordered=True), nt=1)
             add(p, "free")
     elif prop == "C10":
+        hold_jobs(rng, tier, [find_term], add)
         lag_jobs(rng, tier, [find_term], add)
         for i in range(n):
             r = rng.random()
@@ -502,6 +531,7 @@ def jobs_for(prop, tier, seed):
             p["term"] = {"k": "none" if big else rng.choice(["count", "collect_vec", "first", "none"])}
             add(norm(p), "free")
     elif prop == "C13":
+        hold_jobs(rng, tier, [lambda r, s_, sh: any_term(r, s_, sh)], add)
         slow_source_jobs(rng, tier, [lambda r, s_, sh: any_term(r, s_, sh)], add)
         lag_jobs(rng, tier, [lambda r, s_, sh: any_term(r, s_, sh)], add)
         matrix(rng, tier, [lambda r, s_, sh: any_term(r, s_, sh)], add)
@@ -527,6 +557,7 @@ def jobs_for(prop, tier, seed):
                 continue
             add(p)
     elif prop == "C15":
+        hold_jobs(rng, tier, [lambda r, s_, sh: any_term(r, s_, sh)], add)
         big_find_jobs(rng, tier, add)
         slow_source_jobs(rng, tier, [lambda r, s_, sh: any_term(r, s_, sh)], add)
         lag_jobs(rng, tier, [lambda r, s_, sh: any_term(r, s_, sh)], add)
